@@ -148,11 +148,19 @@ def run_batch(recs, alpha_js, alphabet, stats, what):
             inv, body = m.group(1), m.group(2)
             ks = re.findall(r"/\\ k = (\d+)", body)
             ws = re.findall(r"/\\ w = (<<.*?>>)", body)
+            if not ks:
+                raise core.MachineryError(f"MC_ContentProduct: violation of {inv} without a readable state:\n" + body[:600])
             if ks and inv == "ParsersAgree":
                 raise core.MachineryError("the harness' parser and the specification's recogniser (PMExprSyntax) disagree on "
                                           + repr(recs[base + (int(ks[-1]) - 1) * nsh]["src"]))
             if ks:
                 bad.append((base + (int(ks[-1]) - 1) * nsh, inv, ws[-1] if ws else ""))
+        # every reported invariant violation must have been understood (TLC words them differently for initial
+        # states and for later states - a pattern that misses one of the forms would silently pass)
+        n_reported = len(re.findall(r"^Error: Invariant \w+ is violated", r.stdout, re.M))
+        n_parsed = len(re.findall(r"Error: Invariant (\w+) is violated(?: by the initial state)?[.:]", r.stdout))
+        if n_reported != n_parsed:
+            raise core.MachineryError(f"MC_ContentProduct: {n_reported} invariant violations reported, {n_parsed} understood")
         other = [e for e in r.errors if "Invariant" not in e and "behavior up to this point" not in e]
         if other:
             raise core.MachineryError("MC_ContentProduct: " + "; ".join(other[:3]) + r.stdout[-1500:])
